@@ -23,6 +23,9 @@ WOneWay  == [X \in HonestDef |-> IF X = "A" THEN {1, 500, 1024, 1025, 3000} ELSE
 ROneWay  == [X \in HonestDef |-> IF X = "B" THEN {0, 1, 100, 1024, 4096} ELSE {}]
 WOneWayQ == [X \in HonestDef |-> IF X = "A" THEN {1, 1024, 1025, 3000} ELSE {}]
 ROneWayQ == [X \in HonestDef |-> IF X = "B" THEN {1, 1024, 4096} ELSE {}]
+\* the quick tier's replay graph: one single-frame and one two-frame write, a one-byte and a large read
+WOneWayG == [X \in HonestDef |-> IF X = "A" THEN {1, 1025} ELSE {}]
+ROneWayG == [X \in HonestDef |-> IF X = "B" THEN {1, 4096} ELSE {}]
 WDuplex  == [X \in HonestDef |-> {1, 1025}]
 RDuplex  == [X \in HonestDef |-> {1, 4096}]
 WFull    == [X \in HonestDef |-> IF X = "A" THEN {1025} ELSE {1}]
